@@ -38,9 +38,10 @@ for d in sorted(os.listdir(root)):
     demo = "demo.sh" if os.path.exists(os.path.join(root, d, "demo.sh")) else "demo.c"
     meta.update({
         "breaks_property": pid,
-        "origin": "independent sub-agent that was given only the property text and a scratch worktree of /repo at commit %s (nothing from /verif)" % ("39c4358" if d[-1] in "56" else "5f3ff6d")
+        "origin": "independent sub-agent that was given only the property text and a scratch worktree of /repo at commit %s (nothing from /verif)" % ("8fa01c8" if d[-1] in "78" else "39c4358" if d[-1] in "56" else "5f3ff6d")
                   + ("; second round: additionally told the one-line titles of the first-round regressions of the same property and asked for rarer triggers" if d[-1] in "34" else "")
-                  + ("; third round: told the one-line titles of the four earlier regressions of the same property and asked for regressions made of two cooperating changes or depending on state left by earlier calls / on the order of calls" if d[-1] in "56" else ""),
+                  + ("; third round: told the one-line titles of the four earlier regressions of the same property and asked for regressions made of two cooperating changes or depending on state left by earlier calls / on the order of calls" if d[-1] in "56" else "")
+                  + ("; fourth round: told the titles of the six earlier regressions of the same property and asked for regressions on growth/capacity/boundary paths of data structures, in rarely used entry points or argument combinations, or arithmetic slips" if d[-1] in "78" else ""),
         "needs_to_manifest": "see notes.md (written by the sub-agent)",
         "demonstration": demo,
         "confirmed_by": "tools/verify_seeded.sh seeded/%s : patch applies to /repo HEAD; repository suite 48/48 with the patch; demonstration exits 0 without and non-zero with the patch" % d,
